@@ -2,3 +2,4 @@ pub mod c02;
 pub mod c03;
 pub mod c04;
 pub mod c20;
+pub mod c01;
